@@ -136,7 +136,7 @@ SPEC = {
              'reference evaluation of the miter netlist, and is_circuit_satisfiable; operand snapshots; '
              'wellformed(miter). Non-trivial: the circuits differ on some but not all rows.'),
     'assumptions': ['pysat stand-in (z3) decides the miter CNF'],
-    'subs': [Sub('miter', cases, check_miter, {'quick': 2500, 'thorough': 30000})],
+    'subs': [Sub('miter', cases, check_miter, {'quick': 2500, 'thorough': 150000})],
     'required_classes': {'miter': ['m=1', 'm=2', 'shared_labels', 'output_is_input', 'dup_output',
                                    'shape_mismatch', 'mode:mutant', 'mode:independent']},
 }
